@@ -262,12 +262,13 @@ class Evidence:
             self.cov["samples"].append(s)
 
     def write(self):
-        os.makedirs(os.path.join(VERIF, "evidence"), exist_ok=True)
+        evdir = os.environ.get("KLVERIF_EVIDENCE_DIR") or os.path.join(VERIF, "evidence")
+        os.makedirs(evdir, exist_ok=True)
         doc = {"property_id": self.prop, "tier": self.tier, "seed": int(self.seed), "level": self.level,
                "coverage": self.cov, "assumptions": self.assumptions,
                "wall_s": round(time.time() - self.t0, 2), "violations": self.violations,
                "known_findings_matched": self.known}
-        path = os.path.join(VERIF, "evidence", f"{self.prop}.json")
+        path = os.path.join(evdir, f"{self.prop}.json")
         tmp = path + ".tmp"
         with open(tmp, "w") as f:
             json.dump(doc, f, indent=1, default=str)
